@@ -109,7 +109,7 @@ def check(tier, seed):
         for s in report:
             R.broken.append(s)
         # (2) footprint / alignment / allocation monitor over slices of every other corpus
-        step = 20 if tier == "quick" else 3
+        step = 20 if tier == "quick" else 6
         W = []
         for mod in (c01, c02, c03, c04, c05, c14, c16, c17, c19):
             ws = mod.witnesses(tier, seed) if mod is not c03 else mod.witnesses(tier, seed, 'gnu++17')
